@@ -813,7 +813,11 @@ def rules(tier):
             ('C03.R7', c01.r8_uniform_scale), ('C03.R8', _renorm),
             ('C03.R9', r9_counted_value_is_segment), ('C03.R10', c01.r4_prob_pt_coupling), ('C03.R11', _adoption), ('C03.R12', _separators), ('C03.R13', c01.r11_sections_not_aliased), ('C03.R14', _reader_rewrites), ('C03.R15', _all_items_written), ('C03.R16', _relative_frequency),
             # C03-ca: the pass that feeds the parser reads the training file without --prefixcount
-            ('C03.R17', _shared_rule('c19', 'r1_three_passes'))] + _loader_bundle() + _segmentation_bundle() + []
+            ('C03.R17', _shared_rule('c19', 'r1_three_passes')),
+            # C03-da: load_grammar hands skip_brute to _load_terminals in the place of skip_case
+            ('C03.R18', _shared_rule('c14', 'r13_options_forwarded')),
+            # detector results reach the counters they belong to
+            ('C03.R19', _shared_rule('plumbing', 'unpack_order'))] + _loader_bundle() + _segmentation_bundle() + []
 
 
 META = {
